@@ -13,6 +13,7 @@ import ctypes
 import os
 import re
 import struct
+from fractions import Fraction
 
 import vlib
 
@@ -136,6 +137,97 @@ def gen_int_cases(rng, n):
     return cases
 
 
+# ---------------------------------------------------------------------------------------------
+# directed stream for the *parser* (inputs that are not outputs of the printer): decimal strings next to the midpoints
+# between adjacent floats / doubles, where a reader that rounds twice, breaks ties the wrong way or drops digits goes wrong.
+# The expected value is computed exactly with Fractions (round to nearest, ties to even), never with floating point.
+def float_value(bits):
+    """exact value of a non-negative finite float32 bit pattern"""
+    e, m = bits >> 23, bits & 0x7fffff
+    return Fraction(m, 1 << 149) if e == 0 else Fraction((1 << 23) | m) * Fraction(2) ** (e - 150)
+
+
+def double_value(bits):
+    e, m = bits >> 52, bits & 0xfffffffffffff
+    return Fraction(m, 1 << 1074) if e == 0 else Fraction((1 << 52) | m) * Fraction(2) ** (e - 1075)
+
+
+def nearest_bits(x, lo, valuef):
+    """correctly rounded bit pattern for the exact non-negative value x, known to lie in [valuef(lo), valuef(lo + 1)]"""
+    a, b = valuef(lo), valuef(lo + 1)
+    if x - a < b - x:
+        return lo
+    if x - a > b - x:
+        return lo + 1
+    return lo if lo % 2 == 0 else lo + 1
+
+
+def decimal_near(x, digits, up):
+    """decimal string with `digits` significant digits: x rounded down (up=False) or up (up=True); returns (text, exact value)"""
+    # scale so that x * 10^k has exactly `digits` integer digits
+    k = 0
+    y = x
+    while y >= 10 ** digits:
+        y /= 10
+        k -= 1
+    while y < 10 ** (digits - 1):
+        y *= 10
+        k += 1
+    n = y.numerator // y.denominator
+    if up and Fraction(n) != y:
+        n += 1
+    return "%de%d" % (n, -k), Fraction(n) / Fraction(10) ** k if k >= 0 else Fraction(n) * Fraction(10) ** (-k)
+
+
+def correct_bits(text, dbl):
+    """correctly rounded bit pattern of a finite decimal text, by exact rational arithmetic"""
+    x = Fraction(text)
+    neg = text.strip().startswith("-")
+    x = abs(x)
+    if dbl:
+        c = d2b(abs(float(text)))
+        valuef = double_value
+    else:
+        c = f2b(abs(_libc.strtof(text.encode(), None)))
+        valuef = float_value
+    best = min((b for b in (c - 1, c, c + 1) if b >= 0), key=lambda b: (abs(valuef(b) - x), b % 2))
+    return best | ((1 << (63 if dbl else 31)) if neg else 0)
+
+
+def gen_parser_hazards(rng, n):
+    """(case line, expected bits) for ReadFloat / ReadDouble"""
+    out = []
+    for _ in range(n):
+        dbl = rng.chance(1, 3)
+        if dbl:
+            lo = rng.choice([rng.below(0x7fefffffffffffff), (rng.range(1, 2046) << 52) | rng.below(1 << 52), rng.below(1 << 52)])
+            valuef, top = double_value, 0x7fefffffffffffff
+        else:
+            lo = rng.choice([rng.below(0x7f7fffff), (rng.range(1, 254) << 23) | rng.below(1 << 23), rng.below(1 << 23),
+                             (rng.range(60, 200) << 23) | rng.choice([0x7fffff, 0, 1, 0x7ffffe])])
+            valuef, top = float_value, 0x7f7fffff
+        if lo >= top:
+            lo = top - 1
+        mid = (valuef(lo) + valuef(lo + 1)) / 2
+        digits = rng.range(8, 17) if not dbl else rng.range(16, 24)
+        for up in (False, True):
+            text, val = decimal_near(mid, digits, up)
+            if val < valuef(lo) or val > valuef(lo + 1):
+                continue                # too few digits: the rounded decimal left the interval; not this stream's business
+            exp = nearest_bits(val, lo, valuef)
+            if rng.chance(1, 2):
+                text, exp = "-" + text, exp | (1 << (63 if dbl else 31))
+            if rng.chance(1, 3):
+                # the same number written without an exponent where that stays short
+                m, e = text.lstrip("-").split("e")
+                if -8 <= int(e) <= 0 and len(m) + 2 < 40:
+                    z = m.rjust(-int(e) + 1, "0")
+                    plain = z[:len(z) + int(e)] + ("." + z[len(z) + int(e):] if int(e) else "")
+                    text = ("-" if text[0] == "-" else "") + plain
+            out.append((("RD " if dbl else "RF ") + text.encode().hex(), "%x" % exp, text))
+    return out
+
+
 FLOAT_ALPHABET = re.compile(rb"^-?(inf|NaN|[0-9]+(\.[0-9]+)?(e[+-]?[0-9]+)?)$")
 
 
@@ -239,6 +331,12 @@ def run(ctx):
     rng = ctx.rng
     cases = [l.strip() for l in open(os.path.join(vlib.ROOT, "corpus", "C19", "cases.txt")) if l.strip() and not l.startswith("#")] \
         if os.path.exists(os.path.join(vlib.ROOT, "corpus", "C19", "cases.txt")) else []
+    hp = os.path.join(vlib.ROOT, "corpus", "C19", "double_rounding_hazards.txt")
+    if os.path.exists(hp):
+        for l in open(hp):
+            if l.strip() and not l.startswith("#"):
+                b = int(l.split()[0], 16)
+                cases += ["F %x" % b, "F %x" % (b | 0x80000000)]
     ctx.count("corpus_cases", len(cases))
     cases += gen_float_cases(rng, ctx.pick(4000, 40000)) + gen_double_cases(rng, ctx.pick(4000, 40000)) + gen_int_cases(rng, ctx.pick(1200, 12000))
     impl = vlib.compile_driver("c19_driver", DRIVER_SRC, libs=("kenlm_util",), extra=("-DNDEBUG",))
@@ -255,6 +353,20 @@ def run(ctx):
         r = oracle_float(c, o, consts) if k in ("F", "D") else oracle_int(c, o, consts)
         if r:
             fails.append((("float" if k == "F" else "double" if k == "D" else k.lower()) + ":" + r[0], c, o, r[1]))
+    # ---- the committed double-rounding hazards (corpus/C19/double_rounding_hazards.txt) run as ordinary F cases above;
+    # ---- here: the per-run directed stream for the parser
+    hz = gen_parser_hazards(rng, ctx.pick(6000, 60000))
+    hout = vlib.run_lines(impl, [c for c, _, _ in hz], timeout=900)
+    nh = 0
+    for (c, exp, text), o in zip(hz, hout):
+        if o != exp:
+            kind = "double" if c.startswith("RD") else "float"
+            fails.append((kind + ":parse:midpoint", c, o, "Read%s(%r) = %s, the correctly rounded value (exact rational arithmetic, ties to even) is %s"
+                          % ("Double" if kind == "double" else "Float", text, o, exp)))
+        else:
+            nh += 1
+    ctx.coverage["parser_midpoint_cases"] = len(hz)
+    ctx.coverage["parser_midpoint_cases_ok"] = nh
     lap("oracle")
     # ---- exploration by execution: sweeps inside the driver (multi-threaded), see the driver's header comment
     sweeps = []
@@ -367,6 +479,11 @@ def replay(ctx, obj):
     c = obj["replay"]["case"]
     o = vlib.run_lines(impl, [c])[0]
     k = c.split()[0]
+    if k in ("RF", "RD"):
+        text = bytes.fromhex(c.split()[1]).decode()
+        exp = "%x" % correct_bits(text, k == "RD")
+        print("case:", c, "text:", text, "\nimpl:", o, "\ncorrectly rounded (exact rational arithmetic):", exp)
+        return 0 if o == exp else 1
     r = oracle_float(c, o, consts) if k in ("F", "D") else oracle_int(c, o, consts) if k in INT_TYPES or k == "P" else ("sweep", o)
     print("case:", c, "\nimpl:", o, "\noracle:", r[1] if r else "ok")
     return 1 if r else 0
